@@ -95,7 +95,7 @@ def csr_rows(specs, bits, dtype, order=None, zeros=False, rng=None):
 
 class C06(vlib.Check):
     id = "C06"
-    props_modules = ["E3fpVerif.Props.C06"]
+    props_modules = ["E3fpVerif.Props.C06", "E3fpVerif.Props.C06Real"]
     gen_items = ["metrics"]
     rule = ("pairs of fingerprints of all kinds (empty, identical, subset, disjoint, random; bits 8..2^32 for the fingerprint "
             "forms, <= 4096 for the matrix forms) x five measures x eleven calling forms (metrics.* with fp/fp, fp/db, db/fp, "
@@ -240,12 +240,33 @@ class C06(vlib.Check):
     def model_ops(self, case):
         a, b, m, form = case["a"], case["b"], case["m"], case["form"]
         if case["t"] == "mismatch":
+            if form in ("fp-fp", "fp-db", "db-db"):
+                wa = {"fp": a} if form.startswith("fp") else {"db": {"kind": a["kind"], "level": a["level"], "fps": [a]}}
+                wb = {"fp": b} if form.endswith("fp") else {"db": {"kind": b["kind"], "level": b["level"], "fps": [b]}}
+                return [{"op": "met.dispatch", "m": m, "a": wa, "b": wb}]
             return [{"op": "met.def", "m": m, "x": [], "y": [], "bits": 1}]
-        if form in ("fp-fp", "fprint_metrics"):
-            aa, bb = a, b
-            if form == "fp-fp" and m in BINARY:      # metrics.tanimoto/dice: operands are used through their indices
-                pass
-            return [{"op": "met.fp", "m": m, "a": aa, "b": bb}]
+        if form == "fprint_metrics":
+            return [{"op": "met.fp", "m": m, "a": a, "b": b}]
+        # the public dispatching functions: the model decides the route, the wrapping into one-row databases and the casts
+        def as_db(f):
+            return {"db": {"kind": f["kind"], "level": f["level"], "fps": [f]}}
+        if form == "fp-fp":
+            return [{"op": "met.dispatch", "m": m, "a": {"fp": a}, "b": {"fp": b}}]
+        if form == "fp-db":
+            return [{"op": "met.dispatch", "m": m, "a": {"fp": a}, "b": as_db(b)}]
+        if form == "db-fp":
+            return [{"op": "met.dispatch", "m": m, "a": as_db(a), "b": {"fp": b}}]
+        if form == "db-db":
+            return [{"op": "met.dispatch", "m": m, "a": as_db(a), "b": as_db(b)}]
+        if form == "single-db":
+            b2 = dict(b, kind=a["kind"])
+            if a["kind"] == "bit":
+                b2["cnt"] = []
+            elif b["kind"] == "bit":
+                b2["cnt"] = [[i, "1"] for i in b["idx"]]
+            elif a["kind"] == "count":
+                b2["cnt"] = [[i, str(int(Fraction(v)))] for i, v in b["cnt"]]
+            return [{"op": "met.dispatch", "m": m, "a": {"db": {"kind": a["kind"], "level": a["level"], "fps": [a, b2]}}, "b": None}]
         xa, xb = self.effective(case)
         if form == "single-db":
             xb = self.single_b(case)
@@ -269,12 +290,22 @@ class C06(vlib.Check):
 
     def model_answer(self, case, answers):
         if case["t"] == "mismatch":
+            if case["form"] in ("fp-fp", "fp-db", "db-db"):
+                return answers[0]
             return {"err": "rejected"}
-        return answers[0]
+        a = answers[0]
+        if "ok" in a and "scalar" in a["ok"]:
+            return {"ok": a["ok"]["scalar"]}
+        if "ok" in a and "matrix" in a["ok"]:
+            mat = a["ok"]["matrix"]
+            return {"ok": mat[0][1] if case["form"] == "single-db" else mat[0][0]}
+        return a
 
     def compare(self, case, a_impl, a_model):
         if case["t"] == "mismatch":
-            return None     # decided by the property evaluation
+            if case["form"] in ("fp-fp", "fp-db", "db-db") and ("err" in a_impl) != ("err" in a_model):
+                return {"impl": a_impl, "model": a_model}
+            return None     # otherwise decided by the property evaluation
         if "ok" not in a_impl:
             return {"impl": a_impl, "model": a_model}
         mv = model_value(a_model)
